@@ -61,6 +61,14 @@ CHECKS = {
    category="exploration", design_ref="3/C15", technique="property-based testing (hypothesis): print -> read round trip on generated specs, compared on an independent IR with witness words, plus constraint verdict comparison on generated trees",
    text="Generated grammars (postfix operators over groups and over each other, all bound forms, awkward literals, bytes, regexes, parties, generators with arguments) and generated constraint programs are printed the way `fandango convert` prints them and read back; grammar IRs are compared after language-preserving normalisation, differences are decided by a witness word or an open bound that was closed; constraint verdicts are compared on generated trees.",
    note="IR extraction reads Fandango's node objects of both sides identically; one open known finding (parenthesised and/or re-read as one python expression)."),
+ "C17": dict(
+   category="exploration", design_ref="3/C17", technique="property-based testing (hypothesis-generated configurations) with a two-fresh-process differential: byte equality of the ordered solution and parse reports",
+   text="Generated configurations (spec x settings x random seed x PYTHONHASHSEED in {0,1,12345}) are run in two fresh interpreter processes that differ in pid, address layout, start time, working directory and unrelated environment; ordered solutions (text and tree shape) and ordered parse forests must be byte-identical.",
+   note="Hash seed equal inside a pair (as the statement says); rare nondeterminism below 1/cases can be missed; no shrinking (a case is a batch of 4 configurations)."),
+ "C18": dict(
+   category="exploration", design_ref="3/C18", technique="property-based testing (hypothesis-generated pairs of specs) with a fresh-process differential: B alone vs. B after activity on A",
+   text="For generated pairs (A, B) and amounts of activity on A (construct, fuzz long enough for the adaptive tuner to grow its limits, parse), B's ordered solutions and parse results in a process that first worked on A must equal those of a process that ran B alone.",
+   note="Both arms under the same hash seed; the parser cap for {n,} (observable only beyond 20 iterations) is an open known finding and probed separately."),
 }
 NA = {}
 checks = []
